@@ -1420,6 +1420,57 @@ DETAIL["c14_nested_isolated_partials"] = lambda k, a, has_who, gw: {"source": _D
 CONDITIONS.append({"fn": "c14_nested_isolated_partials", "quick": 60, "thorough": 120})
 
 
+
+# ---- template globals are a layer of the scope too: with a caching loader, the globals given with one request never stay bound
+# for a later request that gives none (or others) --------------------------------------------------------------------------
+_TG_SRC = {"t": "[{{ g }}|{{ h }}|{{ e }}]", "page": "{% include 't' %}{% render 't' %}"}
+_TG_GLOBALS = [None, {}, {"g": "G1"}, {"g": "G2", "h": "H2"}, {"h": 0}]
+
+
+def template_globals_case(kind, env_globals, i1, i2, i3, name_page, use_async):
+    from liquid import CachingChoiceLoader, ChoiceLoader
+    from vf.hx import drive
+    res = []
+    for caching in (True, False):
+        if kind == 0:
+            loader = _CDL(dict(_TG_SRC)) if caching else DictLoader(dict(_TG_SRC))
+        else:
+            loader = CachingChoiceLoader([DictLoader(dict(_TG_SRC))]) if caching else ChoiceLoader([DictLoader(dict(_TG_SRC))])
+        env = Environment(loader=loader, globals={"e": "E"} if env_globals else None)
+        one = []
+        for gi in (i1, i2, i3):
+            name = "page" if name_page else "t"
+            try:
+                if use_async:
+                    t = drive(env.get_template_async(name, globals=_TG_GLOBALS[gi]))
+                    one.append(drive(t.render_async()))
+                else:
+                    t = env.get_template(name, globals=_TG_GLOBALS[gi])
+                    one.append(t.render())
+            except LiquidError as e:
+                one.append("ERR:" + type(e).__name__)
+        res.append(one)
+    return res
+
+
+def c14_template_globals_cached(kind: int, env_globals: bool, i1: int, i2: int, i3: int, name_page: bool, use_async: bool) -> bool:
+    """
+    pre: 0 <= kind <= 1 and 0 <= i1 <= 4 and 0 <= i2 <= 4 and 0 <= i3 <= 4
+    post: _
+    """
+    if excluded("c14_template_globals_cached", locals()):
+        return True
+    from vf.hx import cbool, cint, untraced
+    args = (cint(kind, 0, 1), cbool(env_globals), cint(i1, 0, 4), cint(i2, 0, 4), cint(i3, 0, 4), cbool(name_page), cbool(use_async))
+    r = untraced(lambda: template_globals_case(*args))
+    return finish(r[0] == r[1])
+
+
+DETAIL["c14_template_globals_cached"] = lambda kind, env_globals, i1, i2, i3, name_page, use_async: {
+    "request globals": [_TG_GLOBALS[i] for i in (i1, i2, i3)], "environment globals": env_globals, "caching / plain loader": template_globals_case(kind, env_globals, i1, i2, i3, name_page, use_async)}
+CONDITIONS.append({"fn": "c14_template_globals_cached", "quick": 60, "thorough": 120, "sel_only": True,
+                   "bounds": "3 requests for one template with globals from a 5-value pool (none, empty, two bindings), with and without environment globals, dict and choice caching loaders, sync and async"})
+
 ASSUMPTIONS = [
     "template sources are concrete skeletons generated in harness/c14.py (the name x bound by for, tablerow, with, macro, capture, assign, include, render, increment, decrement in every nesting order of two, thorough: three); the bound values, the four global layers' values and their presence are symbolic",
     "values are strings of length <= 1 (symbolic ints would be realised by str()); falsy non-string values come from a pool (c14_falsy_layers)",
